@@ -39,7 +39,8 @@ def jEvent (e : Event) : Json :=
 
 /-- `c16.run {kind, quiet, verbosity, columns, max, min_ticks, max_ticks|null, redraw|null,
 bar_width|null, bar_char|null, empty_char|null, progress_char|null, format|null, message|null,
-t0, ops:[{op, arg, t}]}` -> per op the stream writes, the getters and the exception class.
+t0, ops:[{op, arg, t}]}` -> per op the stream writes, the getters and the exception class; `hyp`: the
+deciders of the hypotheses of the theorems on this configuration and history.
 `c16.roundq {a, b}` -> the correctly rounded quotient (self-test of the float model). -/
 def handle (m : String) (j : Json) : Option (R Json) :=
   match m with
@@ -67,7 +68,16 @@ def handle (m : String) (j : Json) : Option (R Json) :=
       let s0 := match message with
         | none => s0
         | some msg => { s0 with messages := dictSet messageKey msg s0.messages }
-      return Json.mkObj [("events", jList jEvent (run c s0 ops))]
+      -- the hypotheses of the theorems (Props.C16.hyps_decide); the message set before the first call
+      -- counts as a `set_message` call (Props.C16.run_with_message)
+      let ops' := match message with
+        | none => ops
+        | some msg => (Op.setMessage msg, t0) :: ops
+      let evs := run c s0 ops
+      return Json.mkObj [("events", jList jEvent evs),
+        ("hyp", Json.mkObj [("single", .bool (singleCharsB c)), ("bar_width_ok", .bool (barWidthOkB c)),
+                            ("clean_cfg", .bool (cleanCfgB c)), ("clean_ops", .bool (cleanOpsB ops')),
+                            ("no_err", .bool (noErrB evs))])]
   | "c16.roundq" => some do
       let a ← fNat j "a"
       let b ← fNat j "b"
